@@ -430,6 +430,15 @@ def merged_items(I, v, cond=TRUE):
     return out
 
 
+def stops_always(L):
+    """the loop is left in its first iteration on every path (break / return conditions are jointly exhaustive)"""
+    if any(b == TRUE for b in L.stops):
+        return True
+    if not L.stops:
+        return False
+    return unsat(and_(*[not_(b) for b in L.stops]))[0]
+
+
 def is_temp(I, ref):
     """the anonymous list/dict a comprehension or generator expression builds"""
     o = I.heap.get(ref.oid) if isinstance(ref, Ref) else None
